@@ -8,7 +8,7 @@ import shutil
 import sys
 import tempfile
 
-sys.path.insert(0, "/repo")
+sys.path.insert(0, __import__("os").environ.get("PVC_REPO", "/repo"))
 from ptera import probing, refstring, select  # noqa: E402
 
 SRC = '''
@@ -54,6 +54,15 @@ COUNTER = [0]
 
 def fresh_module():
     """A fresh copy of the module (own file, own code objects) so that histories do not influence each other."""
+    import gc
+
+    import codefind
+
+    # codefind switches to a (possibly stale) cache when its last gc.get_referrers scan took more than 0.1 s; the harness
+    # pins the exact path so that the verdict does not depend on the load of the machine (assumption A-gc in DESIGN 10)
+    codefind.code_registry.last_cost = 0
+    if COUNTER[0] % 50 == 0:
+        gc.collect()
     COUNTER[0] += 1
     nm = f"c14mod_{COUNTER[0]}"
     p = os.path.join(d, nm + ".py")
@@ -76,7 +85,8 @@ def pick(mod, name):
 
 
 try:
-    targets = {n: None for n in ("top", "A.B.m", "A.n", "inner", "wrapped")}
+    only = [a.split("=", 1)[1] for a in sys.argv if a.startswith("--placement=")]
+    targets = {n: None for n in ("top", "A.B.m", "A.n", "inner", "wrapped") if not only or n in only}
     for name in targets:
         for hist in itertools.product("NRXCSO", repeat=MAXLEN):
             depth = 0
@@ -91,9 +101,12 @@ try:
             mod = fresh_module()
             fn, call, val = pick(mod, name)
             ref = refstring(fn)
+            for stale in [k for k in sys.modules if k.startswith("c14mod_") and k != mod.__name__]:
+                del sys.modules[stale]  # earlier copies can be collected
             stack = []
             try:
                 for o in hist:
+                    __import__("codefind").code_registry.last_cost = 0
                     if o in "NR":
                         sel = (ref + " > y") if o == "R" else select("fn > y", env={"fn": fn})
                         prb = probing(sel)
